@@ -41,6 +41,11 @@ type TimerSchedule struct {
 	// issued from another goroutine at the moment the timer is created (after a short spin of
 	// Race x 600 iterations): the clock jumps while the timer goroutine is arming
 	Race int `json:"race"`
+	// SubSec (definitions whose times count from the timer's creation only): the timer is created
+	// 750 ms past a whole second and every clock reading keeps that offset; before a step that
+	// moves the clock on by one second the clock is first set half a second short of it, where
+	// nothing new may fire
+	SubSec bool `json:"subsec"`
 }
 
 // TmRec is one record of a timer run.
@@ -126,7 +131,11 @@ func TimerRun(run int, defs []TimerDef, sc TimerSchedule, T time.Duration) []TmR
 	if err != nil {
 		return []TmRec{{Run: run, Ev: "infra", Def: sc.Def}}
 	}
-	mock := &spyClock{Mock: clock.NewMockAt(time.Unix(0, 0))}
+	off := int64(0)
+	if sc.SubSec {
+		off = int64(750 * time.Millisecond)
+	}
+	mock := &spyClock{Mock: clock.NewMockAt(time.Unix(0, off))}
 	ctx, cancel := context.WithCancel(context.Background())
 	defer cancel()
 	add(TmRec{Ev: "init"})
@@ -143,7 +152,7 @@ func TimerRun(run int, defs []TimerDef, sc TimerSchedule, T time.Duration) []TmR
 				x += i
 			}
 			_ = x
-			mock.Set(time.Unix(int64(sc.Steps[0].T), 0))
+			mock.Set(time.Unix(int64(sc.Steps[0].T), off))
 		}()
 		close(gate)
 	}
@@ -184,9 +193,16 @@ func TimerRun(run int, defs []TimerDef, sc TimerSchedule, T time.Duration) []TmR
 		time.Sleep(300 * time.Microsecond)
 	}
 	cancelled := false
+	prevT := 0
 	for si, st := range sc.Steps {
 		switch st.Op {
 		case "set":
+			if sc.SubSec && !(racing && si == 0) && st.T-prevT == 1 {
+				// half a second short of the next whole second since creation: nothing is due yet
+				mock.Set(time.Unix(int64(st.T), off-int64(500*time.Millisecond)))
+				time.Sleep(1500 * time.Microsecond)
+			}
+			prevT = st.T
 			u0 := mock.untils.Load()
 			mu.Lock()
 			f0 := fires
@@ -197,7 +213,7 @@ func TimerRun(run int, defs []TimerDef, sc TimerSchedule, T time.Duration) []TmR
 			} else {
 				add(TmRec{Ev: "set", T: st.T})
 				mu.Unlock()
-				mock.Set(time.Unix(int64(st.T), 0))
+				mock.Set(time.Unix(int64(st.T), off))
 			}
 			if !cancelled {
 				waitFor(st.Fires, st.Closed)
